@@ -1117,7 +1117,7 @@ class SI(float):
         ValueError
             when the two quantities are of different types
         """
-        if (type(self) != type(other)):
+        if (type(self) != type(other) or self._sisig != other._sisig):
             raise ValueError("subtracting incompatible quantities")
         return self._val(float(self) - float(other))
 
